@@ -133,4 +133,310 @@ theorem gm_slicedM_cons_some (p : Sel × Sel) (ss : List (Sel × Sel)) (cs : Lis
   · obtain ⟨t', ht', rfl⟩ := h
     exact Or.inl ⟨rfl, t', ht', rfl⟩
 
+
+/-- **value of the sliced operator** (before `reduce_dims`), for an arbitrary left rank index -/
+theorem gm_chain_slicedM (sel : List (Sel × Sel)) :
+    ∀ (cs t : List (Core α)) (r : Nat) (ij : List (Nat × Nat)) (a b : Nat),
+      gm_slicedM sel cs r = some t → ij.length = sel.length → a < r →
+      chain t ij a b = chain cs (selIdxM sel ij) a b := by
+  induction sel with
+  | nil =>
+    intro cs t r ij a b h hij ha
+    cases cs with
+    | nil =>
+      simp only [gm_slicedM, Option.some.injEq] at h
+      subst h
+      cases ij <;> simp [chain]
+    | cons c cs => simp [gm_slicedM] at h
+  | cons s ss ih =>
+    intro cs t r ij a b h hij ha
+    match ij, hij with
+    | x :: xs, hij =>
+      have hxs : xs.length = ss.length := by simpa using hij
+      rcases gm_slicedM_cons_some s ss cs r t h with
+        ⟨rfl, t', ht', rfl⟩ | ⟨k1, k2, c, cs', t', rfl, rfl, ht', rfl⟩ |
+        ⟨a1, b1, c1, a2, b2, c2, c, cs', t', rfl, rfl, ht', rfl⟩
+      · rw [chain_eyeCore r t' x xs a b ha]
+        simpa [selIdxM] using ih cs t' r xs a b ht' hxs ha
+      · simp only [selIdxM, chain, selRow, selCol]
+        apply sumTo_congr; intro l hl
+        rw [ih cs' t' c.r1 xs l b ht' hxs hl]
+      · simp only [selIdxM, chain, selRow, selCol]
+        apply sumTo_congr; intro l hl
+        rw [ih cs' t' c.r1 xs l b ht' hxs hl]
+
+theorem gm_WF_slicedM (sel : List (Sel × Sel)) :
+    ∀ (cs t : List (Core α)) (r : Nat), gm_slicedM sel cs r = some t → WF cs r → WF t r := by
+  induction sel with
+  | nil =>
+    intro cs t r h hw
+    cases cs with
+    | nil => simp only [gm_slicedM, Option.some.injEq] at h; subst h; exact hw
+    | cons c cs => simp [gm_slicedM] at h
+  | cons s ss ih =>
+    intro cs t r h hw
+    rcases gm_slicedM_cons_some s ss cs r t h with
+      ⟨rfl, t', ht', rfl⟩ | ⟨k1, k2, c, cs', t', rfl, rfl, ht', rfl⟩ |
+      ⟨a1, b1, c1, a2, b2, c2, c, cs', t', rfl, rfl, ht', rfl⟩
+    · exact ⟨rfl, ih cs t' r ht' hw⟩
+    · exact ⟨hw.1, ih cs' t' c.r1 ht' hw.2⟩
+    · exact ⟨hw.1, ih cs' t' c.r1 ht' hw.2⟩
+
+theorem gm_length_slicedM (sel : List (Sel × Sel)) :
+    ∀ (cs t : List (Core α)) (r : Nat), gm_slicedM sel cs r = some t → t.length = sel.length := by
+  induction sel with
+  | nil =>
+    intro cs t r h
+    cases cs with
+    | nil => simp only [gm_slicedM, Option.some.injEq] at h; subst h; rfl
+    | cons c cs => simp [gm_slicedM] at h
+  | cons s ss ih =>
+    intro cs t r h
+    rcases gm_slicedM_cons_some s ss cs r t h with
+      ⟨rfl, t', ht', rfl⟩ | ⟨k1, k2, c, cs', t', rfl, rfl, ht', rfl⟩ |
+      ⟨a1, b1, c1, a2, b2, c2, c, cs', t', rfl, rfl, ht', rfl⟩
+    · simp [ih cs t' r ht']
+    · simp [ih cs' t' c.r1 ht']
+    · simp [ih cs' t' c.r1 ht']
+
+/-- mode sizes of the sliced operator (no hypothesis on the cores) -/
+theorem gm_modes_slicedM (sel : List (Sel × Sel)) :
+    ∀ (cs t : List (Core α)) (r : Nat), gm_slicedM sel cs r = some t →
+      modes t = gm_shapeFullM sel := by
+  induction sel with
+  | nil =>
+    intro cs t r h
+    cases cs with
+    | nil => simp only [gm_slicedM, Option.some.injEq] at h; subst h; rfl
+    | cons c cs => simp [gm_slicedM] at h
+  | cons s ss ih =>
+    intro cs t r h
+    rcases gm_slicedM_cons_some s ss cs r t h with
+      ⟨rfl, t', ht', rfl⟩ | ⟨k1, k2, c, cs', t', rfl, rfl, ht', rfl⟩ |
+      ⟨a1, b1, c1, a2, b2, c2, c, cs', t', rfl, rfl, ht', rfl⟩
+    · simp [modes_cons, gm_shapeFullM, eyeCore, ih cs t' r ht']
+    · simp [modes_cons, gm_shapeFullM, selRow, selCol, ih cs' t' c.r1 ht']
+    · simp [modes_cons, gm_shapeFullM, selRow, selCol, ih cs' t' c.r1 ht']
+
+/-- every selector pair of a successful slicing is admissible -/
+theorem gm_all_ok_slicedM (sel : List (Sel × Sel)) :
+    ∀ (cs t : List (Core α)) (r : Nat), gm_slicedM sel cs r = some t →
+      ∀ p ∈ sel, gm_pairOK p = true := by
+  induction sel with
+  | nil => intro cs t r _ p hp; simp at hp
+  | cons s ss ih =>
+    intro cs t r h p hp
+    rcases gm_slicedM_cons_some s ss cs r t h with
+      ⟨rfl, t', ht', rfl⟩ | ⟨k1, k2, c, cs', t', rfl, rfl, ht', rfl⟩ |
+      ⟨a1, b1, c1, a2, b2, c2, c, cs', t', rfl, rfl, ht', rfl⟩
+    · rcases List.mem_cons.mp hp with rfl | hp
+      · rfl
+      · exact ih cs t' r ht' p hp
+    · rcases List.mem_cons.mp hp with rfl | hp
+      · rfl
+      · exact ih cs' t' c.r1 ht' p hp
+    · rcases List.mem_cons.mp hp with rfl | hp
+      · rfl
+      · exact ih cs' t' c.r1 ht' p hp
+
+/-! ### the survival mask of `A[sel]` -/
+
+theorem gm_exPosM_ge (sel : List (Sel × Sel)) : ∀ (i j : Nat), j ∈ gm_exPosM i sel → i ≤ j := by
+  induction sel with
+  | nil => intro i j h; simp [gm_exPosM] at h
+  | cons s ss ih =>
+    intro i j h
+    rcases s with ⟨s1, s2⟩
+    cases s1 <;> cases s2 <;> simp only [gm_exPosM, List.mem_cons] at h <;>
+      first
+        | (have := ih (i+1) j h; omega)
+        | (rcases h with h | h
+           · omega
+           · have := ih (i+1) j h; omega)
+
+theorem gm_exPosM_isEmpty (sel : List (Sel × Sel)) : ∀ (i : Nat),
+    (gm_exPosM i sel).isEmpty = !(sel.any gm_pairKeeps) := by
+  induction sel with
+  | nil => intro i; rfl
+  | cons s ss ih =>
+    intro i
+    rcases s with ⟨s1, s2⟩
+    cases s1 <;> cases s2 <;> simp [gm_exPosM, gm_pairKeeps, ih]
+
+theorem gm_exPosM_keep (i : Nat) (p : Sel × Sel) (ss : List (Sel × Sel))
+    (h : gm_pairKeeps p = true) : gm_exPosM i (p :: ss) = i :: gm_exPosM (i+1) ss := by
+  rcases p with ⟨s1, s2⟩
+  cases s1 <;> cases s2 <;> simp_all [gm_exPosM, gm_pairKeeps]
+
+theorem gm_exPosM_drop (i : Nat) (p : Sel × Sel) (ss : List (Sel × Sel))
+    (h : gm_pairKeeps p = false) :
+    gm_exPosM i (p :: ss) = gm_exPosM (i+1) ss ∧
+    gm_shapeFullM (p :: ss) = (1, 1) :: gm_shapeFullM ss := by
+  rcases p with ⟨s1, s2⟩
+  cases s1 <;> cases s2 <;> simp_all [gm_exPosM, gm_pairKeeps, gm_shapeFullM]
+
+theorem gm_shapeFullM_cons (p : Sel × Sel) (ss : List (Sel × Sel)) :
+    ∃ mn, gm_shapeFullM (p :: ss) = mn :: gm_shapeFullM ss := by
+  rcases p with ⟨s1, s2⟩
+  cases s1 <;> cases s2 <;> exact ⟨_, rfl⟩
+
+/-- with `exclude` = the slice / `None` positions, exactly the integer pairs are removable -/
+theorem gm_rawMask_selM (sel : List (Sel × Sel)) :
+    ∀ (i : Nat) (pre : List Nat), (∀ p ∈ pre, p < i) →
+      rawMask (fun j => (pre ++ gm_exPosM i sel).contains j) i (gm_shapeFullM sel)
+        = sel.map gm_pairKeeps := by
+  induction sel with
+  | nil => intro i pre _; rfl
+  | cons s ss ih =>
+    intro i pre hpre
+    cases hk : gm_pairKeeps s with
+    | false =>
+      obtain ⟨he, hs⟩ := gm_exPosM_drop i s ss hk
+      have hni : i ∉ pre ∧ i ∉ gm_exPosM (i+1) ss := by
+        constructor
+        · intro h; have := hpre i h; omega
+        · intro h; have := gm_exPosM_ge ss (i+1) i h; omega
+      rw [he, hs]
+      simp only [List.map_cons, rawMask, hk]
+      rw [ih (i+1) pre (fun p hp => by have := hpre p hp; omega)]
+      simp [keepB, removableB, hni]
+    | true =>
+      have he := gm_exPosM_keep i s ss hk
+      obtain ⟨mn, hs⟩ := gm_shapeFullM_cons s ss
+      have hfun : (fun j => (pre ++ gm_exPosM i (s :: ss)).contains j)
+          = (fun j => ((pre ++ [i]) ++ gm_exPosM (i+1) ss).contains j) := by
+        funext j; simp [he]
+      rw [hfun, hs]
+      simp only [List.map_cons, rawMask, hk]
+      rw [ih (i+1) (pre ++ [i]) (by
+        intro p hp
+        simp only [List.mem_append, List.mem_singleton] at hp
+        rcases hp with hp | hp
+        · have := hpre p hp; omega
+        · omega)]
+      simp [keepB, removableB]
+
+theorem gm_length_shapeFullM (sel : List (Sel × Sel)) :
+    (gm_shapeFullM sel).length = sel.length := by
+  induction sel with
+  | nil => rfl
+  | cons s ss ih =>
+    obtain ⟨mn, hs⟩ := gm_shapeFullM_cons s ss
+    simp [hs, ih]
+
+/-- survival mask of the sliced operator under `reduce_dims(exclude)` -/
+theorem gm_keptMask_slicedM (sel : List (Sel × Sel)) (cs t : List (Core α)) (r : Nat)
+    (hne : sel ≠ []) (h : gm_slicedM sel cs r = some t) :
+    keptMask (fun j => (gm_exPosM 0 sel).contains j) t = gm_selMaskM sel := by
+  have hm := gm_modes_slicedM sel cs t r h
+  have hraw := gm_rawMask_selM sel 0 [] (by simp)
+  simp only [List.nil_append] at hraw
+  have hne' : gm_shapeFullM sel ≠ [] := by
+    intro h0
+    have := congrArg List.length h0
+    simp [gm_length_shapeFullM] at this
+    exact hne this
+  rw [keptMask, keptMaskM, hm, rd_maskGo_eq _ _ hne' 0 false, hraw]
+  have hany : (List.map gm_pairKeeps sel).any id = sel.any gm_pairKeeps := by
+    rw [List.any_map]; rfl
+  rw [hany, gm_length_shapeFullM]
+  simp only [Bool.false_or, gm_selMaskM]
+
+/-! ### index / shape bookkeeping -/
+
+theorem gm_selIdxM_expand (sel : List (Sel × Sel)) (hok : ∀ p ∈ sel, gm_pairOK p = true) :
+    ∀ (ij : List (Nat × Nat)),
+      selIdxM sel (expandIdx (sel.map gm_pairKeeps) ij) = gm_getIdxM sel ij := by
+  induction sel with
+  | nil => intro ij; cases ij <;> rfl
+  | cons s ss ih =>
+    intro ij
+    have ih' := ih (fun p hp => hok p (List.mem_cons_of_mem _ hp))
+    have hs := hok s List.mem_cons_self
+    rcases s with ⟨s1, s2⟩
+    cases s1 <;> cases s2 <;> simp only [gm_pairOK, reduceCtorEq] at hs
+    · simp [gm_pairKeeps, expandIdx, selIdxM, gm_getIdxM, ih']
+    · cases ij with
+      | nil => simp [gm_pairKeeps, expandIdx, selIdxM, gm_getIdxM]
+      | cons x xs => simp [gm_pairKeeps, expandIdx, selIdxM, gm_getIdxM, ih']
+    · cases ij with
+      | nil => simp [gm_pairKeeps, expandIdx, selIdxM, gm_getIdxM]
+      | cons x xs => simp [gm_pairKeeps, expandIdx, selIdxM, gm_getIdxM, ih']
+
+theorem gm_selIdxM_allInt (sel : List (Sel × Sel)) (hne : sel ≠ [])
+    (hall : sel.any gm_pairKeeps = false) (x : Nat × Nat) :
+    selIdxM sel (expandIdx (List.replicate (sel.length - 1) false ++ [true]) [x])
+      = gm_getIdxM sel [] := by
+  induction sel with
+  | nil => exact absurd rfl hne
+  | cons s ss ih =>
+    rcases s with ⟨s1, s2⟩
+    cases s1 <;> cases s2 <;> simp only [List.any_cons, gm_pairKeeps, Bool.true_or,
+      Bool.false_or, reduceCtorEq] at hall
+    cases ss with
+    | nil => simp [expandIdx, selIdxM, gm_getIdxM]
+    | cons s' ss' =>
+      have := ih (by simp) hall
+      simp only [List.length_cons, Nat.add_sub_cancel] at this ⊢
+      simp only [List.replicate_succ, List.cons_append, expandIdx, selIdxM, gm_getIdxM]
+      rw [this]
+
+theorem gm_keepBy_shapeM (sel : List (Sel × Sel)) :
+    keepBy (sel.map gm_pairKeeps) (gm_shapeFullM sel) = gm_shapeM sel := by
+  induction sel with
+  | nil => rfl
+  | cons s ss ih =>
+    rcases s with ⟨s1, s2⟩
+    cases s1 <;> cases s2 <;> simp [gm_pairKeeps, gm_shapeFullM, gm_shapeM, keepBy, ih]
+
+theorem gm_shapeFullM_allInt (sel : List (Sel × Sel)) (hall : sel.any gm_pairKeeps = false) :
+    gm_shapeFullM sel = List.replicate sel.length (1, 1) := by
+  induction sel with
+  | nil => rfl
+  | cons s ss ih =>
+    rcases s with ⟨s1, s2⟩
+    cases s1 <;> cases s2 <;> simp only [List.any_cons, gm_pairKeeps, Bool.true_or,
+      Bool.false_or, reduceCtorEq] at hall
+    simp [gm_shapeFullM, ih hall, List.replicate_succ]
+
+/-! ### glue -/
+
+theorem gm_getitemGoM_top (sel : List (Sel × Sel)) (cs cs' : List (Core α)) (ex : List Nat)
+    (h : getitemGoM sel cs 0 [] [] = some (cs', ex)) :
+    gm_slicedM sel cs 1 = some cs' ∧ ex = gm_exPosM 0 sel := by
+  rw [gm_getitemGoM_eq] at h
+  simp only [rd_lastR1, List.reverse_nil, List.nil_append, Option.map_eq_some_iff,
+    Prod.mk.injEq] at h
+  obtain ⟨t, ht, rfl, rfl⟩ := h
+  exact ⟨ht, rfl⟩
+
+theorem gm_getitemM_some (sel : List (Sel × Sel)) (cs res : List (Core α)) (flag : Bool)
+    (h : getitemM sel cs = some (res, flag)) :
+    ∃ t, getitemGoM sel cs 0 [] [] = some (t, gm_exPosM 0 sel) ∧ gm_slicedM sel cs 1 = some t ∧
+      res = reduceDims (fun i => (gm_exPosM 0 sel).contains i) t ∧
+      flag = (gm_exPosM 0 sel).isEmpty := by
+  unfold getitemM at h
+  split at h
+  · exact absurd h (by simp)
+  · rename_i cs' ex heq
+    obtain ⟨ht, hex⟩ := gm_getitemGoM_top sel cs cs' ex heq
+    subst hex
+    simp only [Option.some.injEq, Prod.mk.injEq] at h
+    exact ⟨cs', heq, ht, h.1.symm, h.2.symm⟩
+
+/-- the operator slicing loop succeeds iff every pair is admissible and the pairs other than
+    `(None, None)` are as many as the cores -/
+theorem gm_slicedM_isSome (sel : List (Sel × Sel)) : ∀ (cs : List (Core α)) (r : Nat),
+    (gm_slicedM sel cs r).isSome = true ↔
+      (sel.all gm_pairOK = true ∧ sel.countP (fun p => !gm_pairNone p) = cs.length) := by
+  induction sel with
+  | nil => intro cs r; cases cs <;> simp [gm_slicedM]
+  | cons s ss ih =>
+    intro cs r
+    rcases s with ⟨s1, s2⟩
+    cases s1 <;> cases s2 <;> cases cs <;>
+      simp only [gm_slicedM, List.all_cons, List.countP_cons, Option.isSome_map, Option.isSome_none,
+        ih] <;>
+      simp [gm_pairOK, gm_pairNone]
+
 end TT
